@@ -129,6 +129,28 @@ func TestC13(t *testing.T) {
 			run(d("exact, nil hash"), paths[fn], nil, digest, false, "nohash")
 		}
 	}
+	// ---- digests that END in a zero byte (a comparison that pads or truncates to a fixed width would accept
+	// the truncated checksum): per hash function, the first padded script whose digest has a zero last byte
+	for _, hn := range hashNames {
+		mk := hashes[hn]
+		for pad := 2; pad < 20000; pad++ {
+			h := mk()
+			h.Write(script(pad))
+			digest := h.Sum(nil)
+			if digest[len(digest)-1] != 0 {
+				continue
+			}
+			p := filepath.Join(dir, "zerotail-"+hn+".sh")
+			os.WriteFile(p, script(pad), 0o755)
+			d := func(s string) string { return fmt.Sprintf("file=zerotail(pad %d) hash=%s checksum=%s", pad, hn, s) }
+			run(d("exact"), p, mk(), digest, true, "")
+			run(d("digest without its zero last byte"), p, mk(), digest[:len(digest)-1], false, "mismatch")
+			run(d("exact+4 zero bytes"), p, mk(), append(append([]byte(nil), digest...), 0, 0, 0, 0), false, "mismatch")
+			run(d("exact+64 zero bytes"), p, mk(), append(append([]byte(nil), digest...), make([]byte, 64)...), false, "mismatch")
+			run(d("exact+1 non-zero trailing byte"), p, mk(), append(append([]byte(nil), digest...), 0x5a), false, "mismatch")
+			break
+		}
+	}
 	// ---- histories on ONE SecureConfig (the hash is reset between uses, as a caller that re-uses it must):
 	// a verification result must never outlive the file it was computed for
 	{
